@@ -191,3 +191,21 @@ canary('c05-node-reader-no-cap', 'C05', CONN, """            if len > MAX_MESSAG
 
             let mut buf = vec![0u8; len];""", """            let mut buf = vec![0u8; len];""", 'alloc-before-cap')
 canary('c05-framer-extra-byte', 'C05', FRM, '        buf.put_slice(data);\n        buf.to_vec()', '        buf.put_slice(data);\n        buf.put_u8(0);\n        buf.to_vec()', 'WIRE:framing')
+
+# ---- C17 ----
+canary('c17-timeout-remove-dropped', 'C17', NODE, """        if response.is_err() {
+            self.pending_rpcs.remove(&pid_str);
+        }
+""", "", 'PAIR:')
+canary('c17-router-get', 'C17', NODE, "if let Some((_key, sender)) = pending_rpcs.remove(&pid_str) {\n                            let _ = sender.send(body);\n                        }",
+       "if let Some(entry) = pending_rpcs.get(&pid_str) {\n                            let _ = entry.value();\n                            drop(body);\n                        }", 'TABLE:')
+canary('c17-send-failure-leak', 'C17', NODE, """            {
+                self.pending_rpcs.remove(&pid_str);
+                return Err(e.into());
+            }""", """            {
+                return Err(e.into());
+            }""", 'PAIR:')
+canary('c17-key-format-differs', 'C17', NODE, """                        let pid_str = format!("{}.{}.{}", pid.id, pid.serial, pid.creation);""", """                        let pid_str = format!("{}.{}.{}", pid.id, pid.creation, pid.serial);""", 'CONST:')
+canary('c17-no-connection-leak', 'C17', NODE, """            tracing::error!("No connection found for node: {}", remote_node);
+            self.pending_rpcs.remove(&pid_str);""", """            tracing::error!("No connection found for node: {}", remote_node);""", 'PAIR:')
+canary('c17-remove-on-ok', 'C17', NODE, "        if response.is_err() {\n            self.pending_rpcs.remove(&pid_str);", "        if response.is_ok() {\n            self.pending_rpcs.remove(&pid_str);", 'PAIR:')
